@@ -549,6 +549,43 @@ func runC16(c *Ctx, r *Report) {
 				byLex = mu.Value
 			}
 		})
+		if byType == nil {
+			// registered by a helper that stores tToT[...] = tok and returns that very tok
+			eachInstr(af, func(in ssa.Instruction) {
+				hc, ok := in.(*ssa.Call)
+				if !ok || byType != nil {
+					return
+				}
+				callee := hc.Common().StaticCallee()
+				if callee == nil || !isModuleSSA(callee) || callee.Blocks == nil {
+					return
+				}
+				var stored ssa.Value
+				eachInstr(callee, func(x ssa.Instruction) {
+					if mu, ok := x.(*ssa.MapUpdate); ok {
+						if ld, ok := mu.Map.(*ssa.UnOp); ok {
+							if g, ok := ld.X.(*ssa.Global); ok && g.Name() == "tToT" {
+								stored = mu.Value
+							}
+						}
+					}
+				})
+				if stored == nil {
+					return
+				}
+				same := true
+				for _, b := range callee.Blocks {
+					if ret, ok := b.Instrs[len(b.Instrs)-1].(*ssa.Return); ok {
+						if len(ret.Results) != 1 || ret.Results[0] != stored {
+							same = false
+						}
+					}
+				}
+				if same {
+					byType = hc
+				}
+			})
+		}
 		r.Check(byType != nil && byType == byLex, "C16.R3", ssaFuncName(af), "the token registered by type is the instance the lexer returns", c.Pos(af.Pos()),
 			"the by-type table and the lexer's table hold different Token objects for the same token: pointer comparisons with token.ByType (macro definitions, unquote detection) silently fail")
 	}
